@@ -386,6 +386,18 @@ class FnTr:
                 nm = self.gensym(lname(n))
                 self.env[n] = Val(nm, old.typ, path=n)
                 return f'let {nm} := ({old.text} ++ [{v.text}])\n' + self.block(rest)
+            if isinstance(c, ast.Call) and isinstance(c.func, ast.Attribute) and c.func.attr == 'pop' and not c.args and not c.keywords \
+                    and isinstance(c.func.value, ast.Name) and c.func.value.id in self.env \
+                    and self.env[c.func.value.id].typ.startswith('List '):
+                # `xs.pop()` as a statement on a local list: drops the last element, IndexError on the empty list
+                if not self.inst.raises:
+                    raise Unsupported(f'`{self.inst.qual}`: `{ast.unparse(s)}` (IndexError on an empty list) in an instance declared not to raise')
+                n = c.func.value.id
+                old = self.env[n]
+                nm = self.gensym(lname(n))
+                self.env[n] = Val(nm, old.typ, path=n)
+                return (f'match GV.Py.popLast {old.text} with\n| Except.error e => Except.error e\n| Except.ok {nm} =>\n'
+                        + _indent(self.block(rest)))
             hook = self.u.hooks.get('expr_stmt')
             if hook and hook(self, s.value):
                 return self.block(rest)
@@ -406,6 +418,8 @@ class FnTr:
             return self.assign(s, rest)
         if isinstance(s, ast.For):
             return self.for_stmt(s, rest)
+        if isinstance(s, ast.While) and self.on_fall is not None:
+            return self.while_value(s, rest)          # inside a loop body: the loop is a function of its state
         if isinstance(s, ast.While):
             return self.while_stmt(s, rest)
         raise Unsupported(f'`{self.inst.qual}`: statement `{type(s).__name__}`: {ast.unparse(s)[:80]}')
@@ -471,6 +485,18 @@ class FnTr:
             first, others = test.values[0], test.values[1:]
             more = others[0] if len(others) == 1 else ast.BoolOp(op=ast.Or(), values=others)
             return self.branch(first, then_k, lambda tr: tr.branch(more, then_k, else_k))
+        if isinstance(test, ast.BoolOp) and any(self.may_raise(v) for v in test.values[1:]):
+            # `A and B` / `A or B` where B may raise: B is evaluated (and can raise) only when A does not decide the test
+            first, others = test.values[0], test.values[1:]
+            more = others[0] if len(others) == 1 else ast.BoolOp(op=test.op, values=others)
+            st = self.static_test(first) if isinstance(first, (ast.Call, ast.Compare, ast.UnaryOp, ast.Constant)) else None
+            if st is not None:            # decided by the static types of this instance (as in `_expr`)
+                if st is isinstance(test.op, ast.And):
+                    return self.branch(more, then_k, else_k)
+                return (then_k if st else else_k)(self)
+            if isinstance(test.op, ast.And):
+                return self.branch(first, lambda tr: tr.branch(more, then_k, else_k), else_k)
+            return self.branch(first, then_k, lambda tr: tr.branch(more, then_k, else_k))
         opt = self.optional_test(test)
         if opt is not None:
             v, present_is_true = opt
@@ -485,6 +511,18 @@ class FnTr:
         a, b = self.sub(), self.sub()
         a.fresh = b.fresh = self.fresh
         return self.wrap(f'if {c} then\n{_indent(then_k(a))}\nelse\n{_indent(else_k(b))}')
+
+    def may_raise(self, e):
+        """does evaluating the expression involve a call/subscript that may raise (translated on a scratch copy)"""
+        if not self.inst.raises:
+            return False
+        t = self.sub()
+        t.fresh = self.fresh
+        try:
+            t.expr(e)
+        except Unsupported:
+            return False
+        return bool(t.pending)
 
     def has_optional_test(self, test):
         if isinstance(test, ast.BoolOp):
@@ -597,8 +635,14 @@ class FnTr:
             pairs = list(zip(tgt.elts, vals))
         else:
             v = self.expr(value, allow_raise=True)
+            if isinstance(tgt, ast.Name) and isinstance(value, ast.Name) and v.typ.startswith(('List ', 'Set ')) \
+                    and {tgt.id, value.id} & _mutated_names(self.fn):
+                # locals are translated as values: a second name for a list that is later mutated in place would not follow
+                raise Unsupported(f'`{self.inst.qual}`: `{ast.unparse(s)}` aliases a list that is mutated in place')
             if '?' in v.typ and isinstance(tgt, ast.Name):
                 hint = self.u.hooks.get('local_type', lambda q, n: None)(self.inst.qual, tgt.id)
+                if isinstance(s, ast.AnnAssign) and 'ann_type' in self.u.hooks:
+                    hint = self.u.hooks['ann_type'](ast.unparse(s.annotation)) or hint     # `xs: List[T] = []`
                 if not hint:
                     raise Unsupported(f'`{self.inst.qual}`: element type of `{tgt.id}` is not declared')
                 v = Val(f'({v.text} : {lean_type(hint)})', hint)
@@ -644,7 +688,7 @@ class FnTr:
         """`for x in xs: if c: return K` (early exit, nothing else in the body), then the rest"""
         if s.orelse:
             raise Unsupported(f'`{self.inst.qual}`: for/else')
-        xs = self.expr(s.iter)
+        xs = self.iterable(s.iter)
         if not xs.typ.startswith('List '):
             raise Unsupported(f'`{self.inst.qual}`: loop over {xs.typ}')
         pair = isinstance(s.target, ast.Tuple) and len(s.target.elts) == 2 and all(isinstance(t, ast.Name) for t in s.target.elts) \
@@ -740,6 +784,134 @@ class FnTr:
         args = [self.env[n].text for n in fixed] + [_paren(fuel_call)] + [_paren(self.env[n].text) for n in state]
         return self.wrap(' '.join([loop] + ctx + args))
 
+    def while_value(self, s, rest):
+        """`while c: body` inside the body of another loop, as a *fuelled* recursion that **returns the loop's state** (the
+        variables the body assigns / appends to / pops from); the caller rebinds them and goes on with the statements after
+        the loop.  In an instance that may raise the result is in `Except`: the test and the body may raise (`xs[-2]`,
+        `xs.pop()`), `A and B` evaluates `B` only when `A` holds, and running out of fuel *while the test still holds* is
+        the error "ERR:Fuel" — so an equality `… = Except.ok model` also says the fuel was enough.  The fuel handed in is
+        the unit's (`hooks['loop_fuel'](qual, state names)`, else `hooks['fuel'](qual, index)`)."""
+        if s.orelse:
+            raise Unsupported(f'`{self.inst.qual}`: while/else')
+        assigned = set()
+        for n in ast.walk(ast.Module(body=s.body, type_ignores=[])):
+            if isinstance(n, (ast.Assign, ast.AugAssign, ast.AnnAssign)):
+                for t in (n.targets if isinstance(n, ast.Assign) else [n.target]):
+                    for m in ast.walk(t):
+                        if isinstance(m, ast.Name):
+                            assigned.add(m.id)
+            if isinstance(n, ast.Expr) and isinstance(n.value, ast.Call) and isinstance(n.value.func, ast.Attribute) \
+                    and n.value.func.attr in ('add', 'append', 'pop') and isinstance(n.value.func.value, ast.Name):
+                assigned.add(n.value.func.value.id)
+            if isinstance(n, (ast.For, ast.While, ast.Break, ast.Continue, ast.Try, ast.With, ast.Return, ast.Raise)):
+                raise Unsupported(f'`{self.inst.qual}`: `{type(n).__name__}` inside a nested while body')
+        state = [n for n in self.env if n in assigned]
+        if set(state) != assigned or not state:
+            raise Unsupported(f'`{self.inst.qual}`: nested while body must assign names defined before the loop (assigns {sorted(assigned)})')
+        fixed = [n for n in self.env if n not in state and self.env[n].typ not in ('None', 'Kw')]
+        index = len(self.aux) + 1
+        loop = f'{self.inst.lean}.loop{index}'
+        self.aux.append(None)
+        slot = len(self.aux) - 1
+        fuel_t = None
+        if 'loop_fuel' in self.u.hooks:
+            fuel_t = self.u.hooks['loop_fuel'](self.inst.qual, list(state))
+        if not fuel_t and 'fuel' in self.u.hooks:
+            fuel_t = self.u.hooks['fuel'](self.inst.qual, index)
+        if not fuel_t:
+            raise Unsupported(f'`{self.inst.qual}`: no fuel declared for the nested while loop over {state}')
+        fuel_call = fuel_t.format(**{n: self.env[n].text for n in self.env})
+        ctx = [n for n, _t in self.u.ctx_params]
+        aux = self.sub()
+        aux.fresh = self.fresh
+        aux.narrow = {}
+        aux.pending = []
+        fixed_b, state_b = [], []
+        for n in fixed:
+            nm = aux.gensym(lname(n))
+            fixed_b.append((nm, self.env[n].typ))
+            aux.env[n] = Val(nm, self.env[n].typ, path=n)
+        for n in state:
+            nm = aux.gensym(lname(n))
+            state_b.append((nm, self.env[n].typ))
+            aux.env[n] = Val(nm, self.env[n].typ, path=n)
+        fuel = aux.gensym('fuel')
+        types = [self.env[n].typ for n in state]
+
+        def done(tr):
+            for n, t in zip(state, types):
+                if tr.env[n].typ != t:
+                    raise Unsupported(f'`{self.inst.qual}`: `{n}` changes type in a nested while body ({t} -> {tr.env[n].typ})')
+            vals = [tr.env[n].text for n in state]
+            return tr.ok(vals[0] if len(vals) == 1 else '(' + ', '.join(vals) + ')')
+
+        def again(tr):
+            for n, t in zip(state, types):
+                if tr.env[n].typ != t:
+                    raise Unsupported(f'`{self.inst.qual}`: `{n}` changes type in a nested while body ({t} -> {tr.env[n].typ})')
+            return ' '.join([loop] + ctx + [tr.env[n].text for n in fixed] + [fuel] + [_paren(tr.env[n].text) for n in state])
+        zero_tr = aux.sub()
+        zero_tr.fresh = aux.fresh
+        if self.inst.raises:
+            zero = zero_tr.branch(s.test, lambda tr: 'Except.error "ERR:Fuel"', done)
+        else:
+            zero = done(zero_tr)
+        body_tr = aux.sub()
+        body_tr.fresh = aux.fresh
+        body_tr.on_fall = again
+
+        def run_body(tr):
+            tr.on_fall = again
+            return tr.block(list(s.body))
+        if self.inst.raises:
+            succ = body_tr.branch(s.test, run_body, done)
+        else:
+            cond = body_tr.truth(body_tr.expr(s.test))
+            inner = body_tr.sub()
+            inner.fresh = body_tr.fresh
+            succ = f'if {cond} then\n{_indent(run_body(inner))}\nelse\n{_indent(done(body_tr))}'
+        res_t = ' × '.join(_paren(lean_type(t)) for t in types)
+        res_t = f'Except String {_paren(res_t)}' if self.inst.raises else res_t
+        binders = ' '.join([f'({n} : {t})' for n, t in self.u.ctx_params] + [f'({n} : {lean_type(t)})' for n, t in fixed_b])
+        sig = ' → '.join(['Nat'] + [lean_type(t) for _n, t in state_b] + [res_t])
+        pat = ''.join(f', {n}' for n, _t in state_b)
+        self.aux[slot] = '\n'.join([
+            f'/-- the nested `while {ast.unparse(s.test)}` loop of `{self.inst.qual}` (fuelled; returns its state): state ' + ', '.join(state) + ' -/',
+            f'def {loop} {binders} : {sig}',
+            f'  | 0{pat} =>', _indent(zero, 4),
+            f'  | {fuel} + 1{pat} =>', _indent(succ, 4)])
+        # --- the call: rebind the state, go on with the statements after the loop
+        self.fresh = aux.fresh
+        call = ' '.join([loop] + ctx + [self.env[n].text for n in fixed] + [_paren(fuel_call)] + [_paren(self.env[n].text) for n in state])
+        res = self.gensym('st')
+        lets = []
+        if len(state) == 1:
+            res = self.gensym(lname(state[0]))
+            self.env[state[0]] = Val(res, types[0], path=state[0])
+            self.narrow.pop(state[0], None)
+        else:
+            k = len(state)
+            for i, (n, t) in enumerate(zip(state, types)):
+                nm = self.gensym(lname(n))
+                lets.append(f'let {nm} := {res}' + '.2' * i + ('.1' if i < k - 1 else ''))
+                self.env[n] = Val(nm, t, path=n)
+                self.narrow.pop(n, None)
+        after = '\n'.join(lets + [self.block(rest)])
+        if self.inst.raises:
+            return f'match {call} with\n| Except.error e => Except.error e\n| Except.ok {res} =>\n{_indent(after)}'
+        return f'let {res} := {call}\n{after}'
+
+    def iterable(self, e):
+        """the list of values a `for` (or `list(...)`) draws from an iterable expression"""
+        if isinstance(e, ast.Call) and isinstance(e.func, ast.Name) and e.func.id == 'reversed' and len(e.args) == 1 and not e.keywords:
+            v = self.iterable(e.args[0])
+            if not v.typ.startswith('List '):
+                raise Unsupported(f'reversed() of {v.typ}')
+            return Val(f'(({v.text}).reverse)', v.typ)
+        if isinstance(e, ast.Call) and isinstance(e.func, ast.Name) and e.func.id == 'list' and len(e.args) == 1 and not e.keywords:
+            return self.iterable(e.args[0])
+        return self.expr(e)
+
     def for_general(self, s, rest, xs):
         """A loop with state: an auxiliary structural recursion over the list.  Its parameters are every variable in
         scope (unchanged ones first, then the *state*: the outer variables the body assigns); `[]` continues with the code
@@ -753,14 +925,16 @@ class FnTr:
                         if isinstance(m, ast.Name):
                             assigned.add(m.id)
             if isinstance(n, ast.Expr) and isinstance(n.value, ast.Call) and isinstance(n.value.func, ast.Attribute) \
-                    and n.value.func.attr in ('add', 'append') and isinstance(n.value.func.value, ast.Name):
+                    and n.value.func.attr in ('add', 'append', 'pop') and isinstance(n.value.func.value, ast.Name):
                 assigned.add(n.value.func.value.id)
-            if isinstance(n, (ast.While, ast.Break, ast.Continue, ast.Try, ast.With)):
+            if isinstance(n, (ast.Break, ast.Continue, ast.Try, ast.With)):
                 raise Unsupported(f'`{self.inst.qual}`: `{type(n).__name__}` inside a loop body')
         targets = [s.target.id] if isinstance(s.target, ast.Name) else \
             [t.id for t in s.target.elts if isinstance(t, ast.Name)] if isinstance(s.target, ast.Tuple) else None
         if not targets or (isinstance(s.target, ast.Tuple) and len(targets) != len(s.target.elts)):
             raise Unsupported(f'`{self.inst.qual}`: loop target `{ast.unparse(s.target)}`')
+        if any(isinstance(n, ast.Name) and n.id in assigned for n in ast.walk(s.iter)):
+            raise Unsupported(f'`{self.inst.qual}`: the loop body changes what `{ast.unparse(s.iter)}` iterates over')
         state = [n for n in self.env if n in assigned and n not in targets]
         fixed = [n for n in self.env if n not in state and self.env[n].typ not in ('None', 'Kw')]
         elem = xs.typ[5:]
@@ -1308,6 +1482,11 @@ class FnTr:
                     and isinstance(e.right.value, int) and not isinstance(e.right.value, bool) and e.right.value != 0:
                 return Val(f'({a.text} / {b.text})', 'R')           # float division by a non-zero literal (cannot raise)
             raise Unsupported(f'`{ast.unparse(e)[:60]}`: {a.typ} {type(e.op).__name__} {b.typ}')
+        if isinstance(e, ast.BinOp) and isinstance(e.op, ast.BitXor):
+            a, b = self.expr(e.left), self.expr(e.right)
+            if a.typ == b.typ == 'Bool':
+                return Val(f'(xor {a.text} {b.text})', 'Bool')           # `p ^ q` on bools
+            raise Unsupported(f'`{ast.unparse(e)[:60]}`: {a.typ} ^ {b.typ}')
         if isinstance(e, ast.BinOp) and isinstance(e.op, (ast.Add, ast.Sub, ast.Mult)):
             a, b = self.expr(e.left), self.expr(e.right)
             a, b = self.unify_num(a, b)
@@ -1396,6 +1575,16 @@ class FnTr:
                     r = Val(f'(GV.Py.getIdx {_paren(v.text)} {sl.value})', v.typ[5:])
                     r.raises = True                      # IndexError when the list is too short
                     return r
+                neg = (lambda x: x.operand.value if isinstance(x, ast.UnaryOp) and isinstance(x.op, ast.USub) and isinstance(x.operand, ast.Constant)
+                       and isinstance(x.operand.value, int) and not isinstance(x.operand.value, bool) and x.operand.value >= 1 else None)
+                if neg(sl) is not None:
+                    r = Val(f'(GV.Py.negIdx {_paren(v.text)} {neg(sl)})', v.typ[5:])      # `xs[-k]`
+                    r.raises = True                      # IndexError when the list is too short
+                    return r
+                if isinstance(sl, ast.Slice) and sl.lower is None and sl.step is None and neg(sl.upper) is not None:
+                    return Val(f'(({v.text}).take (({v.text}).length - {neg(sl.upper)}))', v.typ)      # `xs[:-k]`
+                if isinstance(sl, ast.Slice) and sl.lower is None and sl.upper is None and neg(sl.step) == 1:
+                    return Val(f'(({v.text}).reverse)', v.typ)                                   # `xs[::-1]`
             raise Unsupported(f'`{self.inst.qual}`: subscript `{ast.unparse(e)}` of {v.typ}')
         if isinstance(e, ast.ListComp):
             return self.list_comp(e)
@@ -1546,6 +1735,18 @@ class FnTr:
                 return self.expr(e.args[1])
             if f.id == 'sorted' and 'sorted' in self.u.hooks:
                 return self.u.hooks['sorted'](self, e)
+            if f.id == 'len' and len(e.args) == 1 and not e.keywords:
+                v = self.expr(e.args[0])
+                if v.typ.startswith('List '):
+                    return Val(f'(Int.ofNat ({v.text}).length)', 'Int')
+                raise Unsupported(f'len() of {v.typ}')
+            if f.id == 'list' and not e.args and not e.keywords:
+                return Val('[]', 'List ?')
+            if f.id == 'list' and len(e.args) == 1 and not e.keywords:
+                v = self.iterable(e.args[0])
+                if v.typ.startswith('List '):
+                    return v              # a copy of a list value (lists are values here)
+                raise Unsupported(f'list() of {v.typ}')
             if f.id == 'bool' and len(e.args) == 1:
                 return Val(self.truth(self.expr(e.args[0])), 'Bool')
             if f.id == 'float' and len(e.args) == 1:
@@ -1700,6 +1901,31 @@ class FnTr:
             if xss.typ.startswith('List List '):
                 return Val(f'(({xss.text}).flatten)', xss.typ[5:])
             raise Unsupported(f'flattening of {xss.typ}')
+        if len(g) in (1, 2) and all(isinstance(c.target, ast.Name) and not c.ifs and not c.is_async for c in g):
+            # `[f(x) for x in xs]` -> `xs.map`; `[f(x, y) for x in xs for y in g(x)]` -> `xs.flatMap (fun x => (g x).map …)`
+            xs = self.expr(g[0].iter)
+            if not xs.typ.startswith('List '):
+                raise Unsupported(f'comprehension over {xs.typ}')
+            x = self.gensym(lname(g[0].target.id))
+            inner = self.sub()
+            inner.fresh = self.fresh
+            inner.env[g[0].target.id] = Val(x, xs.typ[5:], path=g[0].target.id)
+            if len(g) == 1:
+                el = inner.expr(e.elt)
+                out = Val(f'(({xs.text}).map (fun {x} => {el.text}))', 'List ' + el.typ)
+            else:
+                ys = inner.expr(g[1].iter)
+                if not ys.typ.startswith('List '):
+                    raise Unsupported(f'comprehension over {ys.typ}')
+                y = inner.gensym(lname(g[1].target.id))
+                inner.env[g[1].target.id] = Val(y, ys.typ[5:], path=g[1].target.id)
+                el = inner.expr(e.elt)
+                body = ys.text if el.text == y else f'(({ys.text}).map (fun {y} => {el.text}))'
+                out = Val(f'(({xs.text}).flatMap (fun {x} => {body}))', 'List ' + el.typ)
+            if inner.pending:
+                raise Unsupported(f'`{self.inst.qual}`: a call that may raise inside a comprehension')
+            self.fresh = inner.fresh
+            return out
         if len(e.generators) != 1 or not isinstance(e.generators[0].target, ast.Name) or len(e.generators[0].ifs) != 1 \
                 or not (isinstance(e.elt, ast.Name) and e.elt.id == e.generators[0].target.id):
             raise Unsupported(f'`{self.inst.qual}`: comprehension other than `[x for x in xs if c]`')
@@ -1782,6 +2008,18 @@ def _prod_parts(t):
             cur += ch
     parts.append(cur)
     return [p[1:-1] if p.startswith('(') and p.endswith(')') else p for p in parts]
+
+
+def _mutated_names(fn):
+    """names whose value is mutated in place somewhere in the function (method call or augmented assignment)"""
+    out = set()
+    for n in ast.walk(fn):
+        if isinstance(n, ast.Call) and isinstance(n.func, ast.Attribute) and isinstance(n.func.value, ast.Name) \
+                and n.func.attr in ('append', 'pop', 'add', 'extend', 'insert', 'remove', 'sort', 'reverse', 'clear', 'discard', 'update'):
+            out.add(n.func.value.id)
+        if isinstance(n, ast.AugAssign) and isinstance(n.target, ast.Name):
+            out.add(n.target.id)
+    return out
 
 
 def _path(e):
